@@ -915,6 +915,31 @@ pub fn generate(prop: &str, thorough: bool, rng: &mut Rng) -> Case {
                     _ => {}
                 }
             }
+            // a twelfth of the runs: a long tail of deletes (keys outside the universe) around deletes of real keys, so
+            // that the tombstone log crosses a page boundary (256 slots) within one flush; the device is large enough
+            // for a two-page log, which these deletes do not fill
+            if rng.chance(1, 12) {
+                cfg.insert("tomb".into(), 1);
+                cfg.insert("blocks".into(), 20 + rng.below(4) as i64);
+                cfg.insert("block_pages".into(), 16);
+                ops.push(Op::Wait);
+                let mut filler = 1000u64;
+                for _ in 0..238 + rng.below(12) {
+                    ops.push(Op::Delete { k: filler });
+                    filler += 1;
+                }
+                if rng.chance(1, 2) {
+                    ops.push(Op::Wait);
+                }
+                for _ in 0..3 + rng.below(4) {
+                    ops.push(Op::Remove { k: rng.below(keys as usize) as u64 });
+                }
+                for _ in 0..10 + rng.below(25) {
+                    ops.push(Op::Delete { k: filler });
+                    filler += 1;
+                }
+                ops.push(Op::Wait);
+            }
             clients.push(ops);
             // second life (repeated crash / restart cycles): after the recovery on a crash image the store is used again
             // (clients[1]: inserts of new versions and deletes, then evict_all + wait), the process dies a second time
